@@ -501,9 +501,17 @@ def strip_iterable_args(paths: list, model: Model) -> list:
 def normalise_items(paths: list) -> list:
     """Iteration over d.items() is iteration over the keys with the value read as d[k] (so both spellings of a loop agree)."""
     from dataclasses import replace
+    from .setalg import accum_as_comp
+
+    def dict_loops(s_: Term):
+        # `d = {}; for x in S: d[k(x)] = v(x)` is the dict comprehension with the same generators (same overwriting of equal keys)
+        if s_[0] == "accum" and len(s_) >= 6 and s_[1] == "effect" and s_[2] == ("dictlit", ()) and s_[3][0] == "setitem":
+            return accum_as_comp(s_)
+        return None
 
     out = []
     for p in paths:
+        p = replace(p, conds=tuple(mapterm(c, dict_loops) for c in p.conds), value=mapterm(p.value, dict_loops) if p.kind == "return" else p.value)
         m: dict = {}
         conds = []
         for ci_, c in enumerate(p.conds):
